@@ -912,6 +912,11 @@ func unop(fr *frame, instr *ssa.UnOp, x value) value {
 		if r, ok := x.(symRef); ok {
 			return fr.i.selectElem(r.elems, r.idx, elemKind(r.elems))
 		}
+		if fr.i.sched != nil && fr.i.sched.racy && !isLocalAlloc(instr.X) {
+			if _, isGlobal := instr.X.(*ssa.Global); !isGlobal {
+				fr.i.yield("mem")
+			}
+		}
 		px := x.(*value)
 		if px == nil {
 			panic(runtimeErrorText("invalid memory address or nil pointer dereference"))
